@@ -5,6 +5,7 @@ package main
 // Stream "kslock": concurrent Save / Load / LoadByAddress under a watchdog (C20).
 
 import (
+	"bytes"
 	"crypto/aes"
 	"crypto/cipher"
 	"crypto/sha256"
@@ -14,6 +15,7 @@ import (
 	"math/rand"
 	"os"
 	"path/filepath"
+	"strings"
 	"sync"
 	"sync/atomic"
 	"time"
@@ -45,12 +47,12 @@ type ksFile struct {
 }
 
 type ksCase struct {
-	version           int
-	cipher, kdf, prf  string
-	macHexOK, ivHexOK bool
+	version            int
+	cipher, kdf, prf   string
+	macHexOK, ivHexOK  bool
 	ctHexOK, saltHexOK bool
-	c, dklen, ivLen   int
-	goodMac           bool
+	c, dklen, ivLen    int
+	goodMac            bool
 }
 
 func keccak(data ...[]byte) []byte {
@@ -286,6 +288,72 @@ func init() {
 			s.Emit("mon.c20.kslock.path "+sc.name, ans)
 			os.RemoveAll(d2)
 		}
+		// a Load of an address racing the Save of that very address on the same KeyStore object sees the file either not
+		// at all or complete: "file not found", or exactly the key that was saved
+		s.Emit("mon.c20.kslock.load-while-save", func() string {
+			d3, _ := os.MkdirTemp("", "verifkw")
+			defer os.RemoveAll(d3)
+			k3, err := didcrypto.NewKeyStore(d3)
+			if err != nil {
+				return "pass #no-keystore"
+			}
+			rounds := 8
+			if tier == "thorough" {
+				rounds = 40
+			}
+			secret := bytes.Repeat([]byte("0123456789abcdef"), 64)
+			var bad atomic.Value
+			for r := 0; r < rounds; r++ {
+				addr := fmt.Sprintf("did:panacea:round%d#key1", r)
+				stopL := make(chan struct{})
+				var wgl sync.WaitGroup
+				for i := 0; i < 6; i++ {
+					wgl.Add(1)
+					go func() {
+						defer wgl.Done()
+						for {
+							select {
+							case <-stopL:
+								return
+							default:
+							}
+							got, err := k3.LoadByAddress(addr, "pw")
+							if err != nil {
+								if !strings.Contains(err.Error(), "file not found") {
+									bad.Store("a load during the save failed with: " + err.Error())
+									return
+								}
+								continue
+							}
+							if !bytes.Equal(got, secret) {
+								bad.Store("a load during the save returned another key")
+								return
+							}
+						}
+					}()
+				}
+				done := make(chan error, 1)
+				go func() { _, err := k3.Save(addr, secret, "pw"); done <- err }()
+				select {
+				case err := <-done:
+					if err != nil {
+						close(stopL)
+						wgl.Wait()
+						return "pass #save-failed " + err.Error()
+					}
+				case <-time.After(20 * time.Second):
+					close(stopL)
+					return "fail #save-blocked-for-ever"
+				}
+				time.Sleep(20 * time.Millisecond)
+				close(stopL)
+				wgl.Wait()
+				if v := bad.Load(); v != nil {
+					return "fail #" + v.(string)
+				}
+			}
+			return "pass"
+		}())
 		loaders, savers := 6, 6
 		dur := 1500 * time.Millisecond
 		if tier == "thorough" {
